@@ -20,12 +20,25 @@ def gen_tx_spec(rng):
     n_out = rng.choice([1, 1, 2, 2, 3, 4])
     return {
         'ins': [rng.randrange(1000) for _ in range(n_in)],
-        'outs': [[99 if rng.random() < 0.04 else rng.randrange(12), rng.randrange(1, 10)] for _ in range(n_out)],
+        'outs': [[rng.choice([99, 98]) if rng.random() < 0.05 else rng.randrange(12), rng.randrange(1, 10)] for _ in range(n_out)],
         'fee_ppm': rng.choice([0, 0, 0, 1, 1000, 50_000, 500_000, 999_999, 1_000_000]),
     }
 
 
 def gen_mine(rng, latest_bias=0.6, max_txs=4):
+    m = _gen_mine(rng, latest_bias, max_txs)
+    if rng.random() < 0.12:
+        # the reward split over 2-3 outputs, possibly to one key twice, possibly with an output worth nothing
+        k1 = rng.randrange(12)
+        outs = [[k1, rng.choice([1, 3, 10])]]
+        for _ in range(rng.choice([1, 1, 2])):
+            outs.append([rng.choice([k1, rng.randrange(12)]), rng.choice([0, 0, 1, 5])])
+        rng.shuffle(outs)
+        m['reward_outs'] = outs
+    return m
+
+
+def _gen_mine(rng, latest_bias=0.6, max_txs=4):
     return {
         'op': 'mine',
         'tip': -1 if rng.random() < latest_bias else rng.randrange(1000),
